@@ -4,6 +4,8 @@ seeded property, undo. Writes seeded/results.json.  usage: seedtest.py [Cxx ...]
 import os, sys, json, subprocess, time
 sys.path.insert(0, '/verif')
 from props import PROPS
+sys.path.insert(0, '/verif/tools')
+from harvest import harvest
 want = set(sys.argv[1:])
 out = {}
 rp = '/verif/seeded/results.json'
@@ -27,6 +29,10 @@ for d in sorted(os.listdir('/verif/seeded')):
         out[d] = dict(status="caught" if r.returncode == 1 and viol else "MISSED", rc=r.returncode, line=(viol or [''])[0],
                       concrete=bool(viol) and 'no-failing-input-found' not in viol[0], wall_s=round(time.time() - t, 1),
                       summary=r.stdout.strip().split('\n')[-1])
+        if viol and 'no-failing-input-found' not in viol[0]:
+            rp_file = [f[len('replay='):] for f in viol[0].split() if f.startswith('replay=')]
+            if rp_file:
+                out[d]['corpus_cases'] = harvest(os.path.join('/verif', rp_file[0]), pid, 'seed-' + d)
     finally:
         subprocess.run(['git', '-C', '/repo', 'checkout', '--', '.'])
     print(d, out[d]['status'], out[d].get('line', ''), flush=True)
